@@ -154,6 +154,13 @@ func (g *gen) prelude() []zn.Stmt {
 			show("层-after", v("N"), v("R")),
 			ret(bin("+", v("R"), num(1))),
 		}},
+		// a method (and a type) declared inside a method body: they belong to each call
+		&zn.FuncDef{Name: "外", Params: []string{"N"}, Body: []zn.Stmt{
+			&zn.FuncDef{Name: "内", Params: []string{"M"}, Body: []zn.Stmt{ret(bin("*", v("M"), num(2)))}},
+			&zn.ClassDef{Name: "内类", Props: []zn.Prop{{Name: "值", Init: num(7)}}},
+			show("外-in", v("N")),
+			ret(bin("+", &zn.Call{Name: "内", Args: []zn.Expr{v("N")}}, &zn.Member{Root: &zn.New{Class: "内类"}, Name: "值"})),
+		}},
 		// mutual recursion
 		&zn.FuncDef{Name: "偶", Params: []string{"N"}, Body: []zn.Stmt{
 			&zn.If{Conds: []zn.Expr{bin("==", v("N"), num(0))}, Blocks: [][]zn.Stmt{{ret(&zn.BoolLit{V: true})}}},
@@ -226,7 +233,18 @@ func (g *gen) mainOps() []zn.Stmt {
 	fresh := 0
 	nm := func(p string) string { fresh++; return fmt.Sprintf("%s%d", p, fresh) }
 	for i := 0; i < n; i++ {
-		switch g.pick(19, "op") {
+		switch g.pick(21, "op") {
+		case 19: // a method with inner declarations, called again and again
+			out = append(out, show("nested", &zn.Call{Name: "外", Args: []zn.Expr{g.numArg(1)}}), show("nested-again", &zn.Call{Name: "外", Args: []zn.Expr{num(3)}}))
+			g.labels["inner-declarations-called-twice"] = true
+		case 20: // ... and what a call declared does not outlive it
+			g.labels["planted:inner-name-after-call"] = true
+			out = append(out, show("nested", &zn.Call{Name: "外", Args: []zn.Expr{num(1)}}))
+			if g.pick(2, "innerkind") == 0 {
+				out = append(out, show("bad", &zn.Call{Name: "内", Args: []zn.Expr{num(1)}}))
+			} else {
+				out = append(out, &zn.Let{Names: []string{nm("IO")}, E: &zn.New{Class: "内类"}})
+			}
 		case 17, 18: // a chain whose intermediate link returns another object (maybe of the same type)
 			if len(g.objs) < 2 {
 				continue
@@ -435,7 +453,7 @@ func TestCalls(t *testing.T) {
 		if g.twoReceivers {
 			labels = append(labels, "two-receivers")
 		}
-		nt := g.twoReceivers || g.labels["in-place-scalar"] || g.labels["得到"] || g.labels["chain"] || g.labels["recursion>=3"]
+		nt := g.twoReceivers || g.labels["inner-declarations-called-twice"] || g.labels["in-place-scalar"] || g.labels["得到"] || g.labels["chain"] || g.labels["recursion>=3"]
 		h.R.Case(t, "calls", src, s, labels, nt, fails)
 	})
 }
